@@ -4,6 +4,7 @@ import Gallia.Proofs.Lemmas.UdsRespCtor
 import Gallia.Gen.C02Ctor
 import Gallia.Proofs.Lemmas.UdsRespFields
 import Gallia.Gen.C02Fields
+import Gallia.Proofs.Lemmas.UdsRespFromPdu
 /-
   C02 — Decoded UDS responses expose the received fields and re-encode to the same bytes.
   Property theorems only; helper lemmas are in `Proofs/Lemmas/UdsResp.lean`.
@@ -647,5 +648,82 @@ example : fieldsAt "ReportDTCByStatusMaskResponse" [0x59, 0x02, 0xFF, 0, 0, 1, 8
 example : fieldsAt "ClearDynamicallyDefinedDataIdentifierResponse" [0x6C, 0x03] =
     some [("dynamically_defined_data_identifier", .none), ("sub_function", .int 3)] := by decide +kernel
 example : dispatch [0x7D, 0x12, 0xAA, 0xBB, 0xCC] = .ok (some registry[33]) := by rfl
+
+/-! ### the class-level entry points `<Response>.from_pdu` / `parse_static` against `parse_dynamic`
+
+  `fromPduE e` is `Cls.from_pdu` of the registry class `e` (its own `_check_pdu` and `_from_pdu`, no registry dispatch): what
+  the typed helpers of the client and the `parse_static` callers run. -/
+
+/-- whatever a class's own `from_pdu` accepts, the dynamic parser accepts as the same object (so: same class, same
+    fields, same re-serialisation) -/
+theorem from_pdu_accepted_by_dynamic (e : Entry) (b : Bytes) (r : Resp) (he : e ∈ registry)
+    (h : fromPduE e b = .ok r) : decodeResp b = .ok r ∧ dispatch b = .ok (some e) :=
+  ⟨fromPduE_decodeResp he h, dispatch_of_fromPduE he h⟩
+
+/-- ... and whatever the dynamic parser accepts as class `e`, `e.from_pdu` accepts as the same object -/
+theorem dynamic_accepted_by_from_pdu (e : Entry) (b : Bytes) (r : Resp) (h : decodeResp b = .ok r)
+    (hd : dispatch b = .ok (some e)) : fromPduE e b = .ok r := decodeResp_fromPduE h hd
+
+/-- **`from_pdu` and `parse_dynamic` agree wherever both accept** (any registry class, any byte string) -/
+theorem from_pdu_agrees_with_dynamic (e : Entry) (b : Bytes) (r₁ r₂ : Resp) (he : e ∈ registry)
+    (h₁ : fromPduE e b = .ok r₁) (h₂ : decodeResp b = .ok r₂) : r₁ = r₂ := by
+  have := fromPduE_decodeResp he h₁
+  rw [this] at h₂
+  cases h₂; rfl
+
+/-- **`from_pdu` of a class the PDU does not belong to rejects**: the registry dispatches `b` to `e₂`, `e` is another
+    registry class -/
+theorem from_pdu_wrong_class_rejects (e e₂ : Entry) (b : Bytes) (he : e ∈ registry)
+    (hd : dispatch b = .ok (some e₂)) (hne : e₂ ≠ e) : ∃ x, fromPduE e b = .error x := by
+  cases h : fromPduE e b with
+  | error x => exact ⟨x, rfl⟩
+  | ok r =>
+    have := dispatch_of_fromPduE he h
+    rw [hd] at this
+    cases this
+    exact absurd rfl hne
+
+/-- a PDU of an unknown service / unknown sub-function (kept raw by the dynamic parser) is rejected by every class -/
+theorem from_pdu_raw_rejects (e : Entry) (b : Bytes) (he : e ∈ registry) (hg : gate b = .ok .raw) :
+    ∃ x, fromPduE e b = .error x := by
+  cases h : fromPduE e b with
+  | error x => exact ⟨x, rfl⟩
+  | ok r =>
+    have hd := dispatch_of_fromPduE he h
+    obtain ⟨hl, hs, _, _⟩ := fromPduE_ok h
+    simp [gate, hd, checkEntry, hl, hs] at hg
+
+/-- `NegativeResponse.from_pdu` IS the negative branch of the dynamic parser: same verdict (accepted object or the
+    reason of the rejection) on every byte string starting with 7F -/
+theorem neg_from_pdu_is_dynamic (t : Bytes) : fromPduE negEntry (0x7F :: t) = decodeResp (0x7F :: t) :=
+  fromPduE_neg t
+
+/-- `Cls.parse_static` of any class on a byte string starting with 7F is the negative branch of the dynamic parser -/
+theorem parse_static_neg_is_dynamic (e : Entry) (t : Bytes) : parseStaticE e (0x7F :: t) = decodeResp (0x7F :: t) := by
+  simp only [parseStaticE, if_true]
+  exact fromPduE_neg t
+
+/-- `Cls.parse_static` accepts only what the dynamic parser accepts, as the same object -/
+theorem parse_static_agrees_with_dynamic (e : Entry) (b : Bytes) (r : Resp) (he : e ∈ registry)
+    (h : parseStaticE e b = .ok r) : decodeResp b = .ok r := by
+  unfold parseStaticE at h
+  split at h
+  · cases h
+  · split at h
+    · exact fromPduE_decodeResp negEntry_mem h
+    · exact fromPduE_decodeResp he h
+
+/-- the fields of an object obtained through `Cls.from_pdu` are at their positions as well -/
+theorem from_pdu_fields_at_position (e : Entry) (b : Bytes) (r : Resp) (he : e ∈ registry)
+    (h : fromPduE e b = .ok r) : fieldsAt e.cls b = some (leaves r) :=
+  every_field_at_its_position b r e (fromPduE_decodeResp he h) (dispatch_of_fromPduE he h)
+
+example : fromPduE registry[26] [0x71, 0x01, 0x12, 0x34, 0xAA] = .ok (.routine 1 0x1234 [0xAA]) := by
+  simp [fromPduE, registry, lenGate, subGate, parseKind, pRoutine, fromBE]
+example : dispatch [0x71, 0x01, 0x12, 0x34, 0xAA] = .ok (some registry[26]) := by rfl
+example : fromPduE registry[27] [0x71, 0x01, 0x12, 0x34, 0xAA] = .error .subFunction := by
+  simp [fromPduE, registry, lenGate, subGate]
+example : parseStaticE registry[26] [0x7F, 0x31, 0x11] = .ok (.neg 0x31 0x11) := by
+  simp [parseStaticE, fromPduE, negEntry, lenGate, subGate, parseKind, pNeg, nrcTable]
 
 end Gallia.C02
